@@ -524,13 +524,16 @@ def register_in_mps_quantizers(mod: fx.GraphModule):
     for n in mod.graph.nodes:
         if is_inherited_layer(n, mod, (MPSModule,)):
             sub_mod = cast(MPSModule, mod.get_submodule(str(n.target)))
-            prev_n = n.meta['input_features_set_by']
-            if prev_n.op == 'placeholder':
+            # the producer of the consumed tensor: the closest MPS layer on the data path.
+            # (input_features_set_by skips the layers that only propagate the number of
+            # features, e.g., depthwise convolutions and sums, which have an output quantizer
+            # of their own)
+            prev_n = n.all_input_nodes[0] if n.all_input_nodes else n.meta['input_features_set_by']
+            while not (prev_n.op == 'placeholder' or
+                       is_inherited_layer(prev_n, mod, (MPSModule,))) and prev_n.all_input_nodes:
+                prev_n = prev_n.all_input_nodes[0]
+            if not is_inherited_layer(prev_n, mod, (MPSModule,)):
                 continue
-            while not is_inherited_layer(prev_n, mod, (MPSModule,)):
-                prev_n = prev_n.meta['input_features_set_by']
-                if isinstance(prev_n, list):
-                    prev_n = prev_n[0]
             prev_submod = mod.get_submodule(str(prev_n.target))
             sub_mod.in_mps_quantizer = cast(MPSPerLayerQtz, prev_submod.out_mps_quantizer)
 
